@@ -303,6 +303,18 @@ func (pr *propRun) finish(e *Engine, seed int, t0 time.Time) int {
 		fmt.Printf("VIOLATION property=%s replay=%s%s\n", pr.prop, path, suffix)
 	}
 	for _, f := range pr.bfail {
+		matched := false
+		for _, k := range known {
+			if k.Property == pr.prop && k.Status == "open" && k.Obligation == f.rec.Name {
+				fmt.Printf("KNOWN-FINDING: property=%s %s [bounded scenario %s]\n", pr.prop, k.What, f.rec.Name)
+				knownReported = append(knownReported, f.rec.Name+": "+k.What)
+				matched = true
+				break
+			}
+		}
+		if matched {
+			continue
+		}
 		violations++
 		exit = 1
 		path := filepath.Join("/verif/replays", pr.prop, sanitize(f.rec.Name)+".json")
